@@ -361,7 +361,7 @@ func (p *plugin) detectCgroupsDir() error {
 // getFullCgroupsPath returns container's cgroups directory.
 func (p *plugin) getFullCgroupsPath(ctr *api.Container) (string, error) {
 	var fullCgroupsPath string
-	cgroupsPath := ctr.Linux.CgroupsPath
+	cgroupsPath := ctr.GetLinux().GetCgroupsPath()
 	log.Tracef("getFullCgroupsPath: ctr.Id=%q ctr.cgroupsPath=%q", ctr.Id, cgroupsPath)
 	err := filepath.WalkDir(p.cgroupsDir, func(path string, info os.DirEntry, err error) error {
 		if err != nil {
